@@ -8,33 +8,6 @@ import Heathcliff.Proofs.C20B
 namespace HC
 open HC.MM HC.GenApp
 
-theorem ga_foldl_append {α : Type} (v : Nat → List α) (l : List Nat) (acc : List α) :
-    l.foldl (fun a j => a ++ v j) acc = acc ++ l.flatMap v := by
-  induction l generalizing acc with
-  | nil => simp
-  | cons x xs ih => simp [List.foldl_cons, ih, List.flatMap_cons, List.append_assoc]
-
-/-- a `for j in 0..k { list.push(val j) }` loop -/
-theorem ga_forUp_push (f : Nat → List Nat → R (Ctl (List Nat))) (val : Nat → Nat) (k : Nat) (l : List Nat)
-    (h : ∀ j l, j < k → f j l = .ok (.next (l ++ [val j]))) :
-    forUp 0 k l f = .ok (l ++ (List.range k).map val) := by
-  have := ga_forUp_eq' id (fun (l : List Nat) j => l ++ [val j]) f k 0 l (fun j t _ h2 => h j t (by omega))
-  simp only [id] at this
-  have hs : ∀ xs : List Nat, xs.flatMap (fun j => [val j]) = xs.map val := by
-    intro xs
-    induction xs with
-    | nil => rfl
-    | cons x xs ih => simp [List.flatMap_cons, ih]
-  rw [this, ga_foldl_append (fun j => [val j]), List.range_eq_range', hs]
-
-/-- a loop whose body appends a whole list per iteration -/
-theorem ga_forUp_push_list (f : Nat → List Nat → R (Ctl (List Nat))) (val : Nat → List Nat) (k : Nat) (l : List Nat)
-    (h : ∀ j l, j < k → f j l = .ok (.next (l ++ val j))) :
-    forUp 0 k l f = .ok (l ++ (List.range k).flatMap val) := by
-  have := ga_forUp_eq' id (fun (l : List Nat) j => l ++ val j) f k 0 l (fun j t _ h2 => h j t (by omega))
-  simp only [id] at this
-  rw [this, ga_foldl_append val, List.range_eq_range']
-
 theorem ga_pairs_map {β : Type} (A C : Nat) (g : Nat → Nat → β) :
     (pairs A C).map (fun p => g p.1 p.2) = (List.range A).flatMap fun a => (List.range C).map fun c => g a c := by
   simp [pairs, List.map_flatMap, List.map_map, Function.comp_def]
